@@ -126,6 +126,8 @@ JudgeRecord(R) ==
            <<"OtherImportsUnchanged", \E m \in targets : /\ \A p \in impB \ impA : p[2] = cls
                                                          /\ impA \subseteq impB \cup {<<m, cls>>}>>,
            <<"OtherToplevelsUnchanged", R.toplevels_equal>>,
+           \* ... with the comments that belong to them (a doc comment is what hover shows for the class)
+           <<"ToplevelsKeepTheirComments", R.toplevels_equal => R.comments_kept_in_place>>,
            <<"NoNewDiagnostic", NoNewDiagnostic(R)>>,
            <<"BoundNamesStayBound", BindingsKept(R, targets)>> >>
       verdict == IF R.applied THEN verdictA \o verdictB ELSE verdictA
